@@ -3,6 +3,7 @@ package h_c01
 import (
 	"github.com/elys-network/elys/zzvrf/h_c02"
 	"github.com/elys-network/elys/zzvrf/h_c09"
+	"github.com/elys-network/elys/zzvrf/h_c10"
 )
 
 // Other writers of pool reserves / bank holdings / DenomLiquidity, whose inductive steps live in the harness
@@ -33,3 +34,14 @@ func H_Perpetual_Open_Long() { h_c09.H_Open_Long_UsdcCollateral() }
 //vrf:bound see h_c09.H_Open_Short
 //vrf:max-paths 3000
 func H_Perpetual_Open_Short() { h_c09.H_Open_Short() }
+
+//vrf:cover done
+//vrf:bound see h_c10.H_Perp_ClosePositions_TwoOfOnePool_Ledger
+//vrf:max-paths 6000
+func H_Perpetual_ClosePositions_TwoOfOnePool() { h_c10.H_Perp_ClosePositions_TwoOfOnePool_Ledger() }
+
+//vrf:cover done
+//vrf:bound see h_c09.H_ClosePositions_Long_AtomCollateral
+//vrf:max-paths 8000
+//vrf:tier thorough
+func H_Perpetual_ClosePositions() { h_c09.H_ClosePositions_Long_AtomCollateral() }
